@@ -21,7 +21,8 @@ RULE = ("generated interfaces x one random rendering x a random partition into 1
         "with cachingpolicy 0 and 1 over a fresh file cache, followed by a healthy retry on the same cache and a "
         "warm third load; non-trivial = partitions with > 1 document and every fault point; distinct = distinct "
         "(interface, partition, placement[, fault])"
-        ' ; plus: documents held by the store under locations with query strings / fragments, one namespace split by an own-namespace import, a WSDL import followed by an XSD import (D47), a cap on repeated fetches')
+        ' ; plus: documents held by the store under locations with query strings / fragments, one namespace split by an own-namespace import, a WSDL import followed by an XSD import (D47), a cap on repeated fetches'
+        ' ; schema documents wsdl:imported by two WSDLs, a graph bringing its own copy of the SOAP encoding schema under an explicit schemaLocation')
 ASSUMPTIONS = ["an out-of-line schema document refers only to out-of-line schema documents (it can name them by "
                "schemaLocation); an included part does not need declarations of its includer and namespaces on an "
                "import cycle are not split by includes (known finding D35 covers the excluded shape)",
